@@ -1090,7 +1090,18 @@ func init() {
 		if len(i.ps.sched.gs) > 1 {
 			i.ps.sched.yield(fr)
 		}
-		return callIn(i, fr, fr.g, token.NoPos, m, []value{tr.v, a[1]})
+		res := callIn(i, fr, fr.g, token.NoPos, m, []value{tr.v, a[1]}).(tuple)
+		if e, ok := res[1].(iface); ok && e.t != nil {
+			// net/http reports transport failures as *url.Error (which is a net.Error)
+			T := i.namedType("net/url", "Error")
+			u := zero(T).(structure)
+			u[fieldIndex(T, "Op")] = "Get"
+			u[fieldIndex(T, "URL")] = "<url>"
+			u[fieldIndex(T, "Err")] = e
+			var v value = u
+			res = tuple{res[0], iface{t: types.NewPointer(T), v: &v}}
+		}
+		return res
 	}
 	reg("(*net/http.Client).Do", do)
 	reg("(*net/http.Client).do", do)
